@@ -76,6 +76,13 @@ def make_data(rng, xp, kind):
         return rng.normal(size=xp.shape) * 10
     if kind == 'constant':
         return np.full(xp.shape, float(rng.integers(-20, 21)) / 4)
+    if kind == 'plateau':          # repeated neighbouring values and equal end values
+        v = rng.integers(-3, 4, size=xp.shape).astype(np.float64)
+        v[-1] = v[0]
+        if len(v) > 2: v[1] = v[0]
+        return v
+    if kind == 'int':              # integer-valued (and, in the runner, integer-typed) data
+        return rng.integers(-50, 51, size=xp.shape).astype(np.float64)
     a = float(rng.integers(-12, 13)) / 4; c = float(rng.integers(-20, 21)) / 2
     return a * xp + c     # exact for dyadic nodes
 
@@ -121,20 +128,41 @@ def uneven_sigma(rng, K, bits=5):
             return np.concatenate([[0], np.cumsum(inc)]) / tot
 
 
+def edge_config(rng, direction):
+    """Search an exact (dyadic) configuration in which some wrapper targets are bit-exactly at a source node
+    AND at a limit of the one-cell window (the documented closed end of the safe extrapolation)."""
+    for _ in range(4000):
+        nP = int(rng.integers(2, 6)); K = int(rng.integers(2, 7))
+        P = (np.cumsum(rng.integers(1, 4, size=nP)) * 64).astype(np.float64)
+        b = uneven_sigma(rng, K, bits=4); sig = (b[1:] + b[:-1]) / 2
+        sp = float(2.0 ** int(rng.integers(6, 13)))
+        if direction == 'p2s':
+            tgt = sig * sp; src = P
+        else:
+            tgt = P / sp; src = sig
+        lim = [src[0] - (src[1] - src[0]), src[-1] + (src[-1] - src[-2])]
+        if any(t in lim for t in tgt) and any(t in src for t in tgt):
+            return P, b, sp
+    return None
+
+
 def generate(ctx):
     rng = ctx.rng
     quick = ctx.tier == 'quick'
     reps = 2 if quick else 10
     for n in range(2, 8):
         for r in range(reps):
-            for kind in ('random', 'affine', 'constant', 'float'):
+            for kind in ('random', 'affine', 'constant', 'float', 'plateau', 'int'):
+                if quick and kind == 'int' and not (r == 0 and n in (2, 3, 5)): continue
+                if quick and kind == 'plateau' and not (r == 1 and n in (2, 4, 6)): continue
                 dyadic = not (kind == 'float' or (r % 2 == 1 and kind == 'random'))
-                xp = dyadic_nodes(rng, n) if dyadic else float_nodes(rng, n)
+                xp = dyadic_nodes(rng, n, denom=1 if kind == 'int' else 8) if dyadic else float_nodes(rng, n)
                 fp = make_data(rng, xp, kind)
                 k = 1 + (r + n) % 3
                 xs = draw_queries(ctx, rng, xp, NQ, dyadic, k)
                 ctx.count(f'nodes:n={n}'); ctx.count('data:' + kind); ctx.count('nodes:dyadic' if dyadic else 'nodes:float')
                 yield 'interp1d', {'xp': xp.tolist(), 'fp': fp.tolist(), 'xs': xs, 'kind': kind, 'k': k, 'dyadic': dyadic,
+                                   'scalars': (2 if not quick else 1) if (kind == 'int' and r == 0 and n in (2, 3, 5)) else 0,
                                    'aff': [float(rng.integers(-12, 13)) / 4, float(rng.integers(-20, 21)) / 2]}
     # missing data handed to the safe extrapolation
     for r in range(3 if quick else 12):
@@ -184,6 +212,31 @@ def generate(ctx):
         yield 'wrappers', {'P': P.tolist(), 'b': b.tolist(), 'sp': sp.tolist(), 'lead': list(leadshape),
                            'a': float(rng.integers(-8, 9)) / 64, 'c': float(rng.integers(-20, 21)) / 2,
                            'seed': int(rng.integers(0, 2 ** 31)), 'exact': exact}
+    for direction in ('p2s', 's2p', 'p2s', 's2p')[:(2 if quick else 4)]:
+        cfg = edge_config(rng, direction)
+        if cfg is None:
+            ctx.count('edge-config:not-found'); continue
+        P, b, sp0 = cfg
+        sp = np.array([[[sp0, sp0 * 2], [sp0 / 2, sp0]]])
+        ctx.count('edge-config:' + direction)
+        yield 'wrappers', {'P': P.tolist(), 'b': b.tolist(), 'sp': sp.tolist(), 'lead': [],
+                           'a': float(rng.integers(-8, 9)) / 64, 'c': float(rng.integers(-20, 21)) / 2,
+                           'seed': int(rng.integers(0, 2 ** 31)), 'exact': True}
+        if not quick:
+            yield 'wrapper_kw', {'P': P.tolist(), 'b': b.tolist(), 'sp': sp.tolist(), 'lead': [],
+                                 'seed': int(rng.integers(0, 2 ** 31)), 'exact': True}
+    # node lists of length 2 on both sides
+    yield 'wrapper_kw', {'P': [128.0, 320.0], 'b': [0.0, 0.375, 1.0], 'sp': [[[256.0, 512.0], [1024.0, 64.0]]], 'lead': [],
+                         'seed': int(rng.integers(0, 2 ** 31)), 'exact': True}
+    # forms: pytrees, 4-D / 5-D fields whose leading size equals the level count, surface fields, integer dtype, purity
+    for r in range(1 if quick else 4):
+        nP = int(rng.integers(2, 6)); K = int(rng.integers(2, 6))
+        while K == nP: K = int(rng.integers(2, 6))
+        P = (np.cumsum(rng.integers(1, 4, size=nP)) * 64).astype(np.float64)
+        top = 2.0 ** np.ceil(np.log2(P[-1]))
+        yield 'wrapper_forms', {'P': P.tolist(), 'b': uneven_sigma(rng, K).tolist(),
+                                'sp': rng.choice([top / 2, top, 2 * top], size=(1, 2, 2)).tolist(), 'seed': int(rng.integers(0, 2 ** 31))}
+    yield 'rejects', {}
     # every documented interpolate_fn choice through the wrappers, targets below / inside / above the source range
     for r in range(2 if quick else 8):
         exact = (r % 2 == 0)
@@ -242,6 +295,14 @@ def generate(ctx):
         oro = (np.round((lo_ + u * (hi_ - lo_)) / g * 4) / 4)[None]
         ctx.count(f'surface-pressure:leading-axes={lead}')
         yield 'surface_pressure', {'levels': levels.tolist(), 'geo': geo.tolist(), 'oro': oro.tolist(), 'g': g}
+    cfgs = [((5, 3, 'gauss', 0.0), (9, 6, 'equiangular_with_poles', 0.0)),          # up-sampling, poles in the target
+            ((6, 4, 'equiangular', 0.25), (4, 5, 'gauss', 0.0)),                    # offset source, target beyond both ends
+            ((8, 5, 'equiangular_with_poles', 0.0), (5, 3, 'equiangular', 0.5))]    # down-sampling
+    if not quick:
+        cfgs += [((4, 48, 'gauss', 0.0), (7, 9, 'equiangular_with_poles', 0.1)), ((96, 3, 'gauss', 0.0), (10, 8, 'gauss', 0.0)),
+                 ((7, 7, 'gauss', 0.3), (14, 15, 'equiangular', 0.0)), ((12, 6, 'equiangular', 0.0), (12, 6, 'equiangular_with_poles', 0.0))]
+    for r, (S, T) in enumerate(cfgs):
+        yield 'regrid2', {'src': list(S), 'tgt': list(T), 'lead': [[], [3], [2, 2]][r % 3], 'int': r % 2 == 1, 'seed': int(rng.integers(0, 2 ** 31))}
     for r, (w1, w2) in enumerate([(2, 2), (2, 3), (3, 2), (4, 3)] if quick else [(2, 2), (2, 3), (3, 2), (4, 3), (3, 5), (5, 4), (6, 6), (4, 2)]):
         yield 'regrid', {'w1': w1, 'w2': w2, 'lead': r % 3, 'seed': int(rng.integers(0, 2 ** 31))}
 
@@ -318,6 +379,18 @@ def r_interp1d(ctx, a):
     xs = np.asarray(a['xs'], dtype=np.float64); n = len(xp); k = a['k']
     s = scale_of(xp, fp, xs)
     jx, jxp, jfp = jnp.asarray(xs), jnp.asarray(xp), jnp.asarray(fp)
+    if a['kind'] == 'int':         # integer-typed node and data arrays (as in the repo's own tests)
+        jxp = jnp.asarray(xp.astype(np.int64)); jfp = jnp.asarray(fp.astype(np.int64))
+        ctx.count('dtype:int64 nodes+data')
+        # python-scalar / 0-d / integer queries through the un-vmapped public routines
+        for q in ((float(xs[0]), int(xp[0]), np.float64(xs[2]), float(xp[-1]) + 0.5) if a.get('scalars') == 2 else
+                  (float(xs[0]), int(xp[0])) if a.get('scalars') else ()):
+            for name, fn, cmd in (('interp', vi.interp, 0), ('_dot_interp', vi._dot_interp, 1),
+                                  ('linear_interp_with_linear_extrap', vi.linear_interp_with_linear_extrap, 2)):
+                ctx.corr(f'{name} (python scalar query, integer arrays)', [float(fn(q, jxp, jfp))],
+                         ctx.model.call(cmd, [n], [xp, fp, [q]]), scale=s)
+            cmp_opt(ctx, '_linear_interp_with_safe_extrap (python scalar query, integer arrays)',
+                    [float(vi._linear_interp_with_safe_extrap(q, jxp, jfp, n=k))], ctx.model.call(3, [n, 0, k], [xp, fp, [q]]), s)
     vals = {}
     vals['interp'] = np.asarray(jitted('interp')(jx, jxp, jfp))
     vals['dot'] = np.asarray(jitted('dot')(jx, jxp, jfp))
@@ -421,6 +494,9 @@ def r_wrappers(ctx, a):
             # clause: documented window, linear inside (independent numpy evaluation)
             tgt = sig * spv
             wlo = P[0] - (P[1] - P[0]); whi = P[-1] + (P[-1] - P[-2])
+            if a['exact']:
+                ctx.count('wrappers:p2s target exactly at window limit', int(np.sum((tgt == wlo) | (tgt == whi))))
+                ctx.count('wrappers:p2s target exactly at a node', int(np.sum(np.isin(tgt, P))))
             inw = (tgt >= wlo) & (tgt <= whi)
             if a['exact']:
                 ctx.oracle('interp_pressure_to_sigma: missing exactly beyond one cell', bool(np.all(np.isnan(o) == ~inw)),
@@ -438,6 +514,14 @@ def r_wrappers(ctx, a):
             col = fs[ld + (slice(None),) + ij]; mk = miss[ld + (slice(None),) + ij].astype(int)
             o = on_p[ld + (slice(None),) + ij]; spv = sp[(0,) + ij]
             cmp_opt(ctx, 'interp_sigma_to_pressure', o, ctx.model.call(6, [K, nP], [sig, col, P, [spv], mk]), s)
+            if a['exact'] and not ld:
+                q = P / spv; slo = sig[0] - (sig[1] - sig[0]); shi = sig[-1] + (sig[-1] - sig[-2])
+                ctx.count('wrappers:s2p target exactly at window limit', int(np.sum((q == slo) | (q == shi))))
+                ctx.count('wrappers:s2p target exactly at a node', int(np.sum(np.isin(q, sig))))
+                if not mk.any():
+                    ctx.oracle('interp_sigma_to_pressure: present on the closed one-cell window, missing strictly beyond',
+                               bool(np.array_equal(np.isnan(o), (q < slo) | (q > shi))),
+                               {'target': q.tolist(), 'val': o.tolist(), 'window': [float(slo), float(shi)]})
     # round trip of columns affine in pressure
     al, be = a['a'], a['c']
     aff = np.broadcast_to((al * P + be).reshape((nP, 1, 1)), lead + (nP,) + xy).copy()
@@ -496,6 +580,8 @@ def r_wrapper_kw(ctx, a):
                                                ('sigma->pressure', vi.interp_sigma_to_pressure, sig, fS, K)):
         outs = {}
         for lab, fn, vfn, direct, cmd, k in interp_choices():
+            if ctx.tier == 'quick' and lab in ('matrix:_dot_interp', 'safe n=3'):
+                continue
             out = np.asarray(wrapper(jnp.asarray(fld), pc, sg, jnp.asarray(sp), interpolate_fn=vfn))
             outs[lab] = out
             for ij in np.ndindex(*xy):
@@ -546,6 +632,150 @@ def r_approx_sigma(ctx, a):
         m = ctx.model.call(0, [nH + 1], [xp, bnd, xs])
         m = [Fraction(0)] + list(m[1:-1]) + [Fraction(1)] if L >= 1 else m
         ctx.corr('to_approx_sigma_coords', got, m, scale=float(np.abs(bnd).max()) + 1)
+
+
+def r_wrapper_forms(ctx, a):
+    """pytrees; 4-D and 5-D fields whose LEADING size equals the level count; surface / 2-D / scalar leaves pass
+    through; integer-typed fields and surface pressure; purity across interleaved static configurations."""
+    jax, jnp, vi, sc, pe = J()
+    P = np.asarray(a['P'], dtype=np.float64); b = np.asarray(a['b'], dtype=np.float64)
+    sp = np.asarray(a['sp'], dtype=np.float64)
+    rng = np.random.Generator(np.random.PCG64(a['seed']))
+    pc = vi.PressureCoordinates(P); sg = sc.SigmaCoordinates(b)
+    sig = (b[1:] + b[:-1]) / 2; nP = len(P); K = len(sig); xy = sp.shape[-2:]
+    ri = lambda *sh: rng.integers(-64, 65, size=sh)
+    for direction, wrapper, src, nsrc, ndst, cmd in (('pressure->sigma', vi.interp_pressure_to_sigma, P, nP, K, 5),
+                                                     ('sigma->pressure', vi.interp_sigma_to_pressure, sig, K, nP, 6)):
+        other = ndst
+        tree = {'lead=levels 4-D': ri(nsrc, nsrc, *xy) / 8.0, '5-D': ri(2, other, nsrc, *xy) / 8.0,
+                'lead=other count 4-D': ri(other, nsrc, *xy) / 8.0, 'int64 3-D': ri(nsrc, *xy).astype(np.int64), 'scalar': 2.5}
+        if direction == 'pressure->sigma':   # only this wrapper documents a shape condition
+            tree.update({'surface (1,x,y)': ri(1, *xy) / 8.0, '2-D': ri(*xy) / 8.0, 'wrong level count': ri(nsrc + 1, *xy) / 8.0})
+        spj = jnp.asarray(sp) if direction == 'pressure->sigma' else jnp.asarray(sp.astype(np.int64))
+        out = wrapper({k: (jnp.asarray(v) if not np.isscalar(v) else v) for k, v in tree.items()}, pc, sg, spj)
+        ctx.exact(f'{direction} pytree keys', sorted(out.keys()), sorted(tree.keys()))
+        for key, v in tree.items():
+            o = np.asarray(out[key]); v = np.asarray(v)
+            regridded = v.ndim >= 3 and v.shape[-3] == nsrc
+            ctx.count(f'forms:{key}')
+            if not regridded:
+                ctx.oracle(f'{direction}: leaves that are not (..., level, x, y) fields pass through unchanged',
+                           o.shape == v.shape and bool(np.array_equal(o, v)), {'leaf': key, 'in_shape': list(v.shape), 'out_shape': list(o.shape)})
+                continue
+            want_shape = list(v.shape[:-3]) + [ndst] + list(xy)
+            if not ctx.oracle(f'{direction}: the level axis is axis -3 for every field rank', list(o.shape) == want_shape,
+                              {'leaf': key, 'in_shape': list(v.shape), 'out_shape': list(o.shape), 'expected': want_shape}):
+                continue
+            s = float(np.abs(v).max() + 1) * 8
+            for ld in np.ndindex(*v.shape[:-3]):
+                for ij in np.ndindex(*xy):
+                    col = v[ld + (slice(None),) + ij].astype(np.float64); oo = o[ld + (slice(None),) + ij]; spv = sp[(0,) + ij]
+                    tgt = sig * spv if direction == 'pressure->sigma' else P / spv
+                    want = np.asarray(jitted('safe1')(jnp.asarray(tgt), jnp.asarray(src), jnp.asarray(col)))
+                    ctx.oracle(f'{direction}: every column of every leaf is the 1-D safe interpolation of that column',
+                               bool(np.array_equal(np.isnan(oo), np.isnan(want)) and np.all(np.abs(np.nan_to_num(oo) - np.nan_to_num(want)) <= 2.0 ** -36 * s)),
+                               {'leaf': key, 'index': list(ld + ij), 'wrapper': oo.tolist(), 'routine': want.tolist()})
+                    args = [P, col, sig, [spv]] if cmd == 5 else [sig, col, P, [spv]]
+                    cmp_opt(ctx, f'{direction} [{key}]', oo, ctx.model.call(cmd, [nsrc, ndst], args), s)
+        # purity: two static configurations differing in ONE centre, used interleaved in both orders
+        P2 = P.copy(); P2[-1] += 32.0; pc2 = vi.PressureCoordinates(P2)
+        fld = jnp.asarray(ri(nsrc, *xy) / 8.0)
+        r1 = np.asarray(wrapper(fld, pc, sg, jnp.asarray(sp))); r2 = np.asarray(wrapper(fld, pc2, sg, jnp.asarray(sp)))
+        r1b = np.asarray(wrapper(fld, vi.PressureCoordinates(P.copy()), sg, jnp.asarray(sp))); r2b = np.asarray(wrapper(fld, pc2, sg, jnp.asarray(sp)))
+        ctx.oracle(f'{direction}: repeated / interleaved calls are bit-identical', bool(np.array_equal(r1, r1b, equal_nan=True) and np.array_equal(r2, r2b, equal_nan=True)), None)
+        for ij in np.ndindex(*xy):
+            col = np.asarray(fld)[(slice(None),) + ij]; spv = sp[(0,) + ij]
+            args = [P2, col, sig, [spv]] if cmd == 5 else [sig, col, P2, [spv]]
+            cmp_opt(ctx, f'{direction} second static configuration (one centre changed)', r2[(slice(None),) + ij],
+                    ctx.model.call(cmd, [nsrc, ndst], args), float(np.abs(col).max() + 1) * 8)
+
+
+def r_rejects(ctx, a):
+    jax, jnp, vi, sc, pe = J()
+    from dinosaur import horizontal_interpolation as hi, spherical_harmonic as sh
+    def raises(f):
+        try: f(); return False
+        except ValueError: return True
+    for c in ([1.0, 1.0, 2.0], [3.0, 2.0], [1.0, 2.0, 1.5]):
+        ctx.oracle('PressureCoordinates rejects non-increasing centers', raises(lambda: vi.PressureCoordinates(c)), c)
+    ctx.oracle('PressureCoordinates accepts increasing centers', not raises(lambda: vi.PressureCoordinates([1.0, 2.0, 2.5])), None)
+    ctx.oracle('HybridCoordinates rejects a/b of different length',
+               raises(lambda: vi.HybridCoordinates(a_boundaries=np.zeros(3), b_boundaries=np.zeros(4))), None)
+    g1 = sh.Grid(longitude_nodes=4, latitude_nodes=3); g2 = sh.Grid(longitude_nodes=6, latitude_nodes=4)
+    ctx.oracle('NearestRegridder rejects a field that is not on the source grid',
+               raises(lambda: hi.NearestRegridder(g1, g2).nearest_neighbor_2d(jnp.zeros((6, 4)))), None)
+
+
+def indep_nodes(nlon, nlat, spacing, offset):
+    """node coordinates from the grid DEFINITION (not from the Grid object)."""
+    lon = np.linspace(0, 2 * np.pi, nlon, endpoint=False) + offset
+    if spacing == 'gauss':
+        lat = np.arcsin(np.polynomial.legendre.leggauss(nlat)[0])
+    elif spacing == 'equiangular':
+        h = np.pi / nlat; lat = np.linspace(-np.pi / 2 + h / 2, np.pi / 2 - h / 2, nlat)
+    else:
+        lat = np.linspace(-np.pi / 2, np.pi / 2, nlat)
+    return lon, lat
+
+
+def r_regrid2(ctx, a):
+    """up-/down-sampling between grids of different spacing (gauss / equiangular / with poles), longitude offset,
+    tall and wide grids, integer-typed fields, leading axes with different content; independent references."""
+    jax, jnp, vi, sc, pe = J()
+    from dinosaur import horizontal_interpolation as hi, spherical_harmonic as sh
+    rng = np.random.Generator(np.random.PCG64(a['seed']))
+    S, T = a['src'], a['tgt']
+    mk = lambda d: sh.Grid(longitude_nodes=d[0], latitude_nodes=d[1], latitude_spacing=d[2], longitude_offset=d[3])
+    gs, gt = mk(S), mk(T)
+    (slon, slat), (tlon, tlat) = indep_nodes(*S), indep_nodes(*T)
+    for g, lo, la in ((gs, slon, slat), (gt, tlon, tlat)):
+        ctx.oracle_close('grid longitudes follow the grid definition', g.longitudes, lo, scale=8.0, tol_abs=1e-13)
+        ctx.oracle_close('grid latitudes follow the grid definition', g.latitudes, la, scale=2.0, tol_abs=1e-13)
+        ctx.table_obligation('grid latitudes strictly increasing', bool(np.all(np.diff(g.latitudes) > 0)), g.latitudes)
+        ctx.table_obligation('grid longitudes strictly increasing', bool(np.all(np.diff(g.longitudes) > 0)), g.longitudes)
+    lead = tuple(a['lead'])
+    f = rng.integers(-64, 65, size=lead + (S[0], S[1]))
+    f = f.astype(np.int64) if a['int'] else f / 8.0
+    ctx.count('regrid2:' + S[2] + '->' + T[2]); ctx.count('regrid2:int64 field' if a['int'] else 'regrid2:float field')
+    ctx.count('regrid2:target rows poleward of the source range', int(np.sum((tlat < slat[0]) | (tlat > slat[-1]))))
+    ctx.count('regrid2:target columns beyond the source longitudes', int(np.sum((tlon < slon[0]) | (tlon > slon[-1]))))
+    s = float(np.abs(f).max() + 1) * 4
+    bl = hi.BilinearRegridder(gs, gt); out = np.asarray(bl(jnp.asarray(f)))
+    ctx.exact('BilinearRegridder shape', list(out.shape), list(lead) + [T[0], T[1]])
+    ctx.oracle('bilinear regridding of a finite field has no missing values (constant beyond the source range, poles included)',
+               bool(np.all(np.isfinite(out))), {'nan_count': int(np.sum(~np.isfinite(out)))})
+    ff = f.astype(np.float64)
+    for ld in np.ndindex(*lead):
+        lat_pass = np.stack([np.interp(tlat, slat, ff[ld][i]) for i in range(S[0])])                 # (slon, tlat)
+        ref = np.stack([np.interp(tlon, slon, lat_pass[:, j]) for j in range(T[1])], axis=1)         # (tlon, tlat)
+        ctx.oracle_close('bilinear regridding = latitude pass then longitude pass of the reference interpolant', out[ld], ref, scale=s)
+        m = ctx.model.call(10, [S[0], S[1], T[0], T[1]], [gs.longitudes, gs.latitudes, ff[ld].ravel(), gt.longitudes, gt.latitudes])
+        ctx.corr('BilinearRegridder', out[ld], m, scale=s)
+        pole = (tlat < slat[0]) | (tlat > slat[-1])
+        if pole.any():
+            edge = np.where(tlat[pole] < slat[0], 0, S[1] - 1)
+            want = np.stack([np.interp(tlon, slon, ff[ld][:, e]) for e in edge], axis=1)
+            ctx.oracle_close('poleward of the source latitudes the nearest source row is used', out[ld][:, pole], want, scale=s)
+    again = np.asarray(bl(jnp.asarray(f)))
+    ctx.oracle('bilinear regridder: repeated calls are bit-identical', bool(np.array_equal(out, again)), None)
+    # nearest: independent brute-force great-circle neighbour
+    nr = hi.NearestRegridder(gs, gt); idx = np.asarray(nr.indices).copy()
+    LA, LO = np.meshgrid(slat, slon); la_s, lo_s = LA.ravel(), LO.ravel()      # lon-major like nodal_mesh.ravel()
+    LA, LO = np.meshgrid(tlat, tlon); la_t, lo_t = LA.ravel(), LO.ravel()
+    hav = lambda la1, lo1, la2, lo2: 2 * np.arcsin(np.sqrt(np.clip(np.sin((la2 - la1) / 2) ** 2 + np.cos(la1) * np.cos(la2) * np.sin((lo2 - lo1) / 2) ** 2, 0, 1)))
+    D = hav(la_t[:, None], lo_t[:, None], la_s[None, :], lo_s[None, :])
+    ok_range = idx.shape == (T[0] * T[1],) and bool(np.all((idx >= 0) & (idx < S[0] * S[1])))
+    ctx.oracle('nearest indices are valid source indices', ok_range, {'shape': list(idx.shape)})
+    if ok_range:
+        chosen = D[np.arange(len(idx)), idx]
+        ctx.oracle_close('nearest regridding picks a source point at minimal great-circle distance', chosen, D.min(axis=1), scale=1.0, tol_abs=1e-9)
+        outn = np.asarray(nr(jnp.asarray(f)))
+        ctx.exact('NearestRegridder shape', list(outn.shape), list(lead) + [T[0], T[1]])
+        for ld in np.ndindex(*lead):
+            ctx.exact('NearestRegridder (gather)', outn[ld].ravel().astype(np.float64).tolist(),
+                      [float(v) for v in ctx.model.call(11, [S[0] * S[1], T[0] * T[1]] + [int(i) for i in idx], [ff[ld].ravel()])])
+        ctx.oracle('nearest regridder: cached indices are not mutated and repeated calls are bit-identical',
+                   bool(np.array_equal(np.asarray(nr.indices), idx) and np.array_equal(np.asarray(nr(jnp.asarray(f))), outn)), None)
 
 
 def r_hybrid(ctx, a):
@@ -646,4 +876,4 @@ def r_regrid(ctx, a):
 
 
 RUNNERS = {'interp1d': r_interp1d, 'safe_missing': r_safe_missing, 'vectorized': r_vectorized, 'vinterp_pe': r_vinterp_pe,
-           'wrappers': r_wrappers, 'wrapper_kw': r_wrapper_kw, 'approx_sigma': r_approx_sigma, 'hybrid': r_hybrid, 'surface_pressure': r_surface_pressure, 'regrid': r_regrid}
+           'wrappers': r_wrappers, 'wrapper_kw': r_wrapper_kw, 'wrapper_forms': r_wrapper_forms, 'rejects': r_rejects, 'regrid2': r_regrid2, 'approx_sigma': r_approx_sigma, 'hybrid': r_hybrid, 'surface_pressure': r_surface_pressure, 'regrid': r_regrid}
